@@ -763,6 +763,11 @@ def exhaustive_cases():
                 ka, fc, bc, pend = bits & 1, (bits >> 1) & 1, (bits >> 2) & 1, (bits >> 3) & 1
                 ops.append(["set", st, ph, ka, fc, bc, pend, 0, 0])
                 ops.append(["esd"])
+                # the same point with an interim / upgrade / final status line in the response buffer
+                for line in (100, 103, 101, 200):
+                    ops.append(["setline", line])
+                    ops.append(["esd"])
+                ops.append(["setline", 0])
                 if len(ops) >= 33:
                     out.append(Case("x%d" % k, ops, dict(kind="x")))
                     k += 1
